@@ -673,7 +673,7 @@ Qed.
 
 Theorem step_model_uniq m o m' : step_model m o = Ok m' -> uniq (s_edges m) -> uniq (s_edges m').
 Proof.
-  intros H Hu. destruct o as [h n st parents obs|h p c par|h n|h n u|h ps|h n v|h|h]; simpl in H.
+  intros H Hu. destruct o as [h n st parents obs|h p c par|h n|h n u|h ps|h n v|h|h|h n f b]; simpl in H.
   - destruct (add_node m n st) as [m1|] eqn:Ea; simpl in H; [|discriminate].
     destruct (fold_left _ parents (Ok m1)) as [m2|] eqn:Ef; simpl in H; [|discriminate].
     assert (H2 : uniq (s_edges m2)).
@@ -688,6 +688,7 @@ Proof.
   - inversion H; subst. exact Hu.
   - inversion H; subst. exact Hu.
   - inversion H; subst. exact Hu.
+  - unfold set_node_flag in H. destruct (has n (s_nodes m)); [|discriminate]. inversion H; subst. exact Hu.
 Qed.
 
 Theorem run_uniq : forall ops ms ms',
